@@ -258,26 +258,35 @@ func (w *world) l2depsOrInit() map[int]*dep {
 	return w.l2deps
 }
 
-type l2blk struct{ leaves, claims int }
+type l2blk struct {
+	num            uint64
+	leaves, claims int
+}
 
 // reorgL2 drops the L2 blocks >= from in the real bridge store and in the reference history.
 func (w *world) reorgL2(ctx context.Context, from uint64) error {
 	if err := w.l2store.VerifReorg(ctx, from); err != nil {
 		return fmt.Errorf("L2 bridge store reorg: %w", err)
 	}
-	for uint64(len(w.l2blocks)) >= from && len(w.l2blocks) > 0 {
+	for len(w.l2blocks) > 0 && w.l2blocks[len(w.l2blocks)-1].num >= from {
 		b := w.l2blocks[len(w.l2blocks)-1]
 		w.l2blocks = w.l2blocks[:len(w.l2blocks)-1]
 		w.l2exit.Truncate(w.l2exit.Len() - b.leaves)
 		w.nextPool -= b.claims
 	}
-	w.l2last = from - 1
+	w.l2last = 0
+	if len(w.l2blocks) > 0 {
+		w.l2last = w.l2blocks[len(w.l2blocks)-1].num
+	}
 	return nil
 }
 
 // addL2Block feeds one L2 block with nb deposits (to mainnet) and nc claims (next of the pool) to the real bridge store.
-func (w *world) addL2Block(ctx context.Context, nb, nc int) (leaves []int, claims []int, err error) {
+func (w *world) addL2Block(ctx context.Context, nb, nc int, jump ...int) (leaves []int, claims []int, err error) {
 	num := w.l2last + 1
+	if len(jump) > 0 && jump[0] > 1 {
+		num = w.l2last + uint64(jump[0]) // the chain was idle: blocks without events in between are never stored
+	}
 	blk := aggsync.Block{Num: num, Hash: names.Keccak([]byte(fmt.Sprintf("l2-%d-%d", w.seed, num)))}
 	pos := uint64(0)
 	for i := 0; i < nc && w.nextPool < len(w.pool); i++ {
@@ -311,7 +320,7 @@ func (w *world) addL2Block(ctx context.Context, nb, nc int) (leaves []int, claim
 		return nil, nil, fmt.Errorf("L2 bridge store refused block %d: %w", num, err)
 	}
 	w.l2last = num
-	w.l2blocks = append(w.l2blocks, l2blk{leaves: len(leaves), claims: len(claims)})
+	w.l2blocks = append(w.l2blocks, l2blk{num: num, leaves: len(leaves), claims: len(claims)})
 	if leaves == nil {
 		leaves = []int{}
 	}
